@@ -26,11 +26,12 @@ RULE = (
     ' Round 5: templates whose charts spell their notes NOTES2; a negative row followed by a row for the same beat text.'
 )
 ASSUMPTIONS = ["C01's generator and the gap guard", "TimingData / NoteData as readers (C07, C14)"]
-MONITORS = ["result_content", "timing_equal", "notes_equal", "unmodified", "no_sharing", "second_call_same", "reload", "reload_autodetect", "negative_refused"]
+MONITORS = ["result_content", "timing_equal", "notes_equal", "unmodified", "no_sharing", "second_call_same", "reload", "reload_autodetect", "negative_refused", "negative_refused_after_an_earlier_conversion"]
 REQUIRED = ["template_none", "template_blank", "template_sparse", "template_with_charts", "template_empty",
             "chart_template_empty", "chart_template_sparse", "animations_alias", "ssc_only_key_in_source", "version_key_in_source",
             "negative_bpm_or_stop", "source_with_charts", "delays_or_warps", "zero_length_stop", "chart_template_empty_timing_keys",
-            "chart_template_spells_its_notes_NOTES2", "negative_row_followed_by_a_row_for_the_same_beat", "template_with_notes2_chart"]
+            "chart_template_spells_its_notes_NOTES2", "negative_row_followed_by_a_row_for_the_same_beat", "template_with_notes2_chart",
+            "source_is_an_instance_of_a_subclass_of_SMSimfile"]
 
 SSC_ONLY = ["VERSION", "ORIGIN", "LABELS", "MUSICLENGTH", "LASTSECONDHINT", "PREVIEWVID", "JACKET", "CDIMAGE", "DISCIMAGE", "PREVIEW",
             "COMBOS", "SPEEDS", "SCROLLS", "FAKES", "WARPS", "TIMESIGNATURES"]
@@ -189,6 +190,15 @@ def check(ctx, case):
     from simfile.timing import TimingData
 
     sm = build_source(case)
+    if case["seed"] % 4 == 0:
+        # the caller's own subclass of SMSimfile is an SM simfile like any other
+        class MySM(SMSimfile):
+            pass
+
+        sub = MySM(string=str(sm))
+        if E.real_state(sub, "sm") == E.real_state(sm, "sm"):
+            sm = sub
+            ctx.feat("source_is_an_instance_of_a_subclass_of_SMSimfile")
     st, ct = make_templates(case)
     ctx.begin(case, nontrivial=len(sm.charts) > 0 or len(sm) >= 5,
               sample={"start": case["start"], "n_ops": len(case["ops"]), "template": case["template"], "chart_template": case["chart_template"],
@@ -323,6 +333,24 @@ def check(ctx, case):
     if ct is not None:
         ctx.expect(list(ct.items()) == ct_state0, "sharing:mutating-result-changed-chart-template")
     ctx.expect(ssc_state(res2) == first_state, "sharing:mutating-result-changed-second-result")
+
+    # ---- the same source object, edited after a successful conversion so that it now holds a negative BPM or stop,
+    # is refused like any other (and the refused call leaves it alone)
+    ctx.mon("negative_refused_after_an_earlier_conversion")
+    which = "BPMS" if case["seed"] % 2 else "STOPS"
+    old_val = sm.get(which)
+    sm[which] = (old_val + "," if old_val and old_val.strip() else "") + "900.000=-1.500"
+    try:
+        sm_to_ssc(sm, **kwargs)
+        ctx.violation("negative:not-refused-on-a-source-that-converted-fine-before-it-was-edited", {"key": which, "value": sm[which][-60:]})
+    except NotImplementedError:
+        pass
+    except Exception as e:
+        ctx.violation("negative:wrong-exception-on-edited-source", {"exc": repr(e)})
+    if old_val is None:
+        del sm[which]
+    else:
+        sm[which] = old_val
 
     # ---- reload
     ctx.mon("reload")
